@@ -24,6 +24,17 @@ Walk(b) ==
        ELSE LET r == Walk(Drop(b, Hdr + n)) IN
             [xs |-> << [t |-> BEVal(Take(b, TW)), v |-> SubSeq(b, Hdr + 1, Hdr + n)] >> \o r.xs, clean |-> r.clean]
 
+\* the same walk, giving up after `max` triplets (clean = FALSE then): enough to decide "more triplets
+\* than parameters" without walking tens of thousands of mis-framed octets
+RECURSIVE WalkN(_, _)
+WalkN(b, max) ==
+  IF b = <<>> THEN [xs |-> <<>>, clean |-> TRUE]
+  ELSE IF max = 0 \/ Len(b) < Hdr THEN [xs |-> <<>>, clean |-> FALSE]
+  ELSE LET n == BEVal(SubSeq(b, TW + 1, Hdr)) IN
+       IF Len(b) < Hdr + n THEN [xs |-> <<>>, clean |-> FALSE]
+       ELSE LET r == WalkN(Drop(b, Hdr + n), max - 1) IN
+            [xs |-> << [t |-> BEVal(Take(b, TW)), v |-> SubSeq(b, Hdr + 1, Hdr + n)] >> \o r.xs, clean |-> r.clean]
+
 SetOf(xs) == { xs[i] : i \in 1..Len(xs) }
 \* a map keyed by tag: later duplicates overwrite earlier ones
 LastWins(xs) == { xs[i] : i \in { k \in 1..Len(xs) : \A j \in (k + 1)..Len(xs) : xs[j].t # xs[k].t } }
@@ -35,11 +46,11 @@ ExactOnWellFormed(res, err, b) == Walk(b).clean => (~err /\ SetOf(res) = LastWin
 
 \* C16, serialising side: out is some permutation of the triplets of the set
 SerialOK(set, out) ==
-  LET w == Walk(out) IN w.clean /\ Len(w.xs) = Len(set) /\ SetOf(w.xs) = SetOf(set)
+  LET w == WalkN(out, Len(set)) IN w.clean /\ Len(w.xs) = Len(set) /\ SetOf(w.xs) = SetOf(set)
 \* a value too long for the length field: refused, or truncated consistently
 \* (the emitted length field equals the emitted value, which is a prefix of the original)
 LongOK(set, out) ==
-  LET w == Walk(out) IN
+  LET w == WalkN(out, Len(set)) IN
   /\ w.clean /\ Len(w.xs) <= Len(set)
   /\ \A i \in 1..Len(w.xs) : \E j \in 1..Len(set) :
         set[j].t = w.xs[i].t /\ IsPrefixOf(w.xs[i].v, set[j].v)
